@@ -104,6 +104,7 @@ type Gen struct {
 	siteOrd map[string]int
 
 	noRefine    bool
+	fldK        map[string]int
 	retReach    []string
 	smokePts    []smokePt
 	verAlloc    map[string]string // heap version constant -> allocation counter when it was introduced
@@ -349,6 +350,9 @@ func (g *Gen) heap(st *State, name, sort string) string {
 	return c
 }
 
+// refStride: distance between allocated references (room for sub-object references below each)
+const refStride = 1 << 20
+
 type heapVersion struct{ c, alloc string }
 
 type smokePt struct{ name, reach string }
@@ -375,11 +379,14 @@ func (g *Gen) emitAllocInv(name, kind string, v heapVersion) {
 		sel = "(select (select " + v.c + " r) i)"
 		vars = "((r Int) (i Int))"
 	}
+	// only objects that existed when the version was introduced are constrained:
+	// a callee without a modifies clause may still initialise the fields of the
+	// objects it allocates, and those live at indices above the counter
 	switch kind {
 	case "ref":
-		g.emit(fmt.Sprintf("(assert (forall %s (! (and (<= 0 %s) (<= %s %s)) :pattern (%s))))", vars, sel, sel, v.alloc, sel))
+		g.emit(fmt.Sprintf("(assert (forall %s (! (=> (<= r %s) (and (<= 0 %s) (<= %s %s))) :pattern (%s))))", vars, v.alloc, sel, sel, v.alloc, sel))
 	case "slice":
-		g.emit(fmt.Sprintf("(assert (forall %s (! (and (<= 0 (s-arr %s)) (<= (s-arr %s) %s)) :pattern (%s))))", vars, sel, sel, v.alloc, sel))
+		g.emit(fmt.Sprintf("(assert (forall %s (! (=> (<= r %s) (and (<= 0 (s-arr %s)) (<= (s-arr %s) %s))) :pattern (%s))))", vars, v.alloc, sel, sel, v.alloc, sel))
 	}
 }
 
@@ -395,6 +402,8 @@ func (g *Gen) noteHeapKind(l *Loc) {
 	switch l.G.Underlying().(type) {
 	case *types.Pointer, *types.Map, *types.Chan, *types.Signature:
 		kind = "ref"
+	case *types.Slice:
+		kind = "slice"
 	}
 	g.heapKind[l.Heap] = kind
 	if kind != "" {
@@ -420,15 +429,23 @@ func (g *Gen) fieldLoc(structT types.Type, idx int, base string) (*Loc, Val) {
 	f := st.Field(idx)
 	key := typeKey(structT)
 	if _, ok := f.Type().Underlying().(*types.Struct); ok {
-		// embedded-by-value struct: reified sub-object reference
-		fn := g.declFun("fld."+key+"."+f.Name(), []string{"Int"}, "Int")
-		inv := g.declFun("fldinv."+key+"."+f.Name(), []string{"Int"}, "Int")
-		ax := "fldax." + key + "." + f.Name()
-		if !g.declared[ax] {
-			g.declared[ax] = true
-			g.emit(fmt.Sprintf("(assert (forall ((p Int)) (! (and (= (%s (%s p)) p) (=> (> p 0) (> (%s p) 0))) :pattern ((%s p)))))", inv, fn, fn, fn))
+		// embedded-by-value struct: the sub-object's reference is the outer
+		// reference minus a small constant that is unique per (type, field).
+		// References are allocated refStride apart, so a sub-object is fresh
+		// exactly when its container is, sub-objects of different containers
+		// never coincide, and nested embeddings (sums of distinct powers of
+		// two) stay apart. Two *entry* objects may still alias this way, which
+		// Go allows (a pointer to an embedded field).
+		fk := key + "." + f.Name()
+		k, ok := g.fldK[fk]
+		if !ok {
+			if len(g.fldK) >= 19 {
+				g.bail("too many kinds of embedded struct fields in one function")
+			}
+			k = 1 << uint(len(g.fldK))
+			g.fldK[fk] = k
 		}
-		return nil, Val{T: sx(fn, base), S: "Int", G: types.NewPointer(f.Type())}
+		return nil, Val{T: sx("-", base, fmt.Sprint(k)), S: "Int", G: types.NewPointer(f.Type())}
 	}
 	s := g.sortOf(f.Type())
 	return &Loc{Kind: LField, Heap: fieldHeapName(key, f.Name()), Base: base, S: s, G: f.Type()}, Val{}
@@ -552,7 +569,7 @@ func (g *Gen) havocLoc(st *State, l *Loc) {
 
 // newRef allocates a fresh reference.
 func (g *Gen) newRef(st *State) string {
-	r := g.define("ref", "Int", sx("+", st.alloc, "1"))
+	r := g.define("ref", "Int", sx("+", st.alloc, fmt.Sprint(refStride)))
 	st.alloc = r
 	return r
 }
@@ -572,7 +589,8 @@ func (g *Gen) typeInv(v Val, st *State) string {
 			return sx("<=", "0", v.T)
 		}
 	case *types.Pointer, *types.Map, *types.Chan, *types.Signature:
-		return and(sx("<=", "0", v.T), sx("<=", v.T, st.alloc))
+		// nil, or an allocated object (object references start at refStride)
+		return and(sx("<=", "0", v.T), sx("<=", v.T, st.alloc), or(sx("=", v.T, "0"), sx("<=", fmt.Sprint(refStride), v.T)))
 	case *types.Slice:
 		a, o, l, c := sx("s-arr", v.T), sx("s-off", v.T), sx("s-len", v.T), sx("s-cap", v.T)
 		return and(sx("<=", "0", a), sx("<=", a, st.alloc), sx("<=", "0", o), sx("<=", "0", l), sx("<=", l, c),
